@@ -198,11 +198,11 @@ def rand_concrete(rng, names):
 # ---------------------------------------------------------------------------------------------------------------------
 # oracle
 def canon_multiset(ds):
-    """Sorted list of canonical rankings, names converted as documented (all int when all integer-like, else str)."""
+    """List of canonical rankings (compared as a multiset by same_multiset), names converted as documented (all int when all integer-like, else str)."""
     intlike = all((not isinstance(x, str)) or x.isdigit() for r in ds for b in r for x in b)
     conv = (lambda x: int(str(x))) if intlike else (lambda x: str(x))
     rs = [tuple(frozenset((type(conv(x)).__name__, conv(x)) for x in b) for b in r) for r in ds]
-    return sorted(rs, key=lambda r: [sorted(map(str, b)) for b in r]), rs
+    return rs, rs
 
 
 def same_multiset(ca, cb):
